@@ -40,6 +40,11 @@ CHECKS = {
     text="Status replies must list exactly the connections (with usernames) holding a matching subscription; watchers must receive exactly one subscribe/unsubscribe notification per transition on the channel or below, none after cancelling. Validated by TLC on every step of TLC-simulated histories executed on the real broker (both matchers).",
     note="Notifications are asynchronous in the broker: a sentinel pushed through the presence queue (hook) delimits steps; order among notifications of one step is free. Cluster presence (survey) is not exercised (single broker).",
     ref="4.5, 5/C18"),
+ "C16": dict(
+    level="exploration", technique="MQTT 3.1.1 byte layout written as TLA+ operators (Mqtt.tla); TLC enumerates the packet grid with expected bytes; compared with EncodeTo / DecodePacket of the real codec; spec cross-checked against paho",
+    text="Exhaustive over a boundary grid (14 packet types, every CONNECT flag combination incl. will QoS, PUBLISH header flags, remaining length at 0/1/127/128/16383/16384/65530/65531/65535, 0..3 tuples, ids 0/1/256/65535): EncodeTo must produce exactly the bytes the specification computes, DecodePacket of those bytes must give the packet's fields (hence the round trip), bodies above the encoder's buffer must be refused with an error.",
+    note="The specification's layout is itself validated on every packet by decoding the expected bytes with github.com/eclipse/paho.mqtt.golang/packets (disagreement = exit 2). Strings/payloads are runs of a single byte value.",
+    ref="4.8, 5/C16"),
 }
 
 NOT_YET = "check not built yet in this session (planned, see DESIGN.md section 5); not claimed until its machinery exists"
